@@ -19,6 +19,12 @@ Correspondence only as well (never a claimed failing input): the dtype of the di
 determine_optimal_int_type, the warning's category, the error kind on malformed input, identical UPPER bounds across
 formats, and HOW a collection computes its entries (one estimate call per pair right after that pair's distance matrices,
 entry = pair call from the RNG state reached there - hoisting the distance matrices out of the loop is legitimate).
+Source translators (DESIGN.md 3.2): `pre_build` re-translates from the source text (a) `determine_optimal_int_type` and the
+component-selection lines of the fallback (key "graph", Generated/SrcGraph.lean) and (b) EVERY statement of `gromov_hausdorff`,
+`make_distance_matrix_from_adjacency_matrix`, `cast_distance_matrix_to_optimal_int_type`, `determine_optimal_int_type` (key
+"ghentry", harness/translator/py2lean_ghentry.py, Generated/SrcGHEntry.lean), proved equal to `Graph.makeDist` /
+`Graph.gromovHausdorff` for all inputs and, composed with the `estimate` of key "mgh", to `MGHPublic.publicGH`
+(Lemmas/SrcGHEntryPublic.lean); `run` first reports which of those obligations no longer check.
 """
 import itertools, math, warnings
 from collections import deque
@@ -1185,7 +1191,9 @@ def default_filter_probe(ctx):
 
 
 def run(ctx):
-    py2lean.report_broken(ctx, PROP_FILES)
+    # Lemmas/SrcGHEntryPublic.lean imports Generated/SrcMGH.lean (C05's translator output): an edit of `estimate` or below breaks
+    # the build there, so those obligations are named in this report too (they are audited under C05, not counted here)
+    py2lean.report_broken(ctx, PROP_FILES + [f for f in py2lean.prop_files("mgh") if f not in PROP_FILES])
     default_filter_probe(ctx)
     warnings.filterwarnings("ignore", category=sps.SparseEfficiencyWarning)
     ctx.extra["source_digest"] = common.source_digest(
